@@ -659,6 +659,9 @@ func validateCovers(prop string, h HarnessSpec, models map[string]map[string]str
 			}
 			if found {
 				okN++
+			} else if models[l]["__uf"] == "1" {
+				// the witness depends on the value of an uninterpreted function
+				// (hash); the real function differs, so the cover is not replayable
 			} else {
 				fails = append(fails, fmt.Sprintf("%s: native run did not reach the cover (reached %s)", l, cov))
 			}
